@@ -134,10 +134,11 @@ func c20SomeListings(n, t, max int, rng *rand.Rand) [][]int {
 }
 
 // c20RunMC: exhaustive exploration of all histories up to maxOps operations over a small alphabet (code variant).
-func c20RunMC(maxOps, workers int, thorough bool) (tlc.Result, c20Model) {
+// wide = two offsets and a fourth signer list.
+func c20RunMC(maxOps, workers int, wide bool) (tlc.Result, c20Model) {
 	m := c20Model{N: 3, T: 1, Msgs: "{1, 2}", Paths: "{1}", Hows: c20HowsEc, MaxOps: maxOps, Variants: `{"code"}`,
 		Listings: "{<<1, 2>>, <<3, 1>>, <<2, 3, 1>>}"}
-	if thorough {
+	if wide {
 		m.Paths = "{1, 2}"
 		m.Listings = "{<<1, 2>>, <<3, 1>>, <<3, 2>>, <<2, 3, 1>>}"
 	}
@@ -538,13 +539,19 @@ func C20(ctx *core.Ctx) error {
 	_ = rand.Int
 
 	// design model and non-vacuity run in the background
-	var mcRes, varRes tlc.Result
-	var mcModel c20Model
+	var mcRes, mcRes2, varRes tlc.Result
+	var mcModel, mcModel2 c20Model
 	var varTab []c20VariantRow
 	var varErr error
 	var bg sync.WaitGroup
 	bg.Add(2)
-	go func() { defer bg.Done(); mcRes, mcModel = c20RunMC(plan.MCDepth, ctx.Pick(4, 6), ctx.Thorough()) }()
+	go func() {
+		defer bg.Done()
+		mcRes, mcModel = c20RunMC(plan.MCDepth, ctx.Pick(4, 5), false)
+		if ctx.Thorough() && mcRes.Err == nil && mcRes.OK {
+			mcRes2, mcModel2 = c20RunMC(3, 5, true)
+		}
+	}()
 	go func() { defer bg.Done(); varRes, varTab, varErr = c20RunVariants() }()
 
 	// key material (real keygens / resharings of the current tree, vendored fixtures) and the generators, in parallel
@@ -738,6 +745,17 @@ func C20(ctx *core.Ctx) error {
 	}
 	if !mcRes.OK {
 		return core.Inconcl("KeyStore design model violates %s:\n%s", mcRes.Violated, mcRes.ErrorTrace(2500))
+	}
+	if ctx.Thorough() {
+		if mcRes2.Err != nil {
+			return core.Inconcl("KeyStore design model (wide alphabet): %v", mcRes2.Err)
+		}
+		if !mcRes2.OK {
+			return core.Inconcl("KeyStore design model (wide alphabet) violates %s:\n%s", mcRes2.Violated, mcRes2.ErrorTrace(2500))
+		}
+		cov.AddMC(mcRes2.Distinct, mcRes2.Generated)
+		cov.Set("mc_wide", map[string]any{"n": mcModel2.N, "t": mcModel2.T, "listings": mcModel2.Listings, "msgs": mcModel2.Msgs, "paths": mcModel2.Paths, "hows": mcModel2.Hows,
+			"max_ops": mcModel2.MaxOps, "distinct": mcRes2.Distinct, "generated": mcRes2.Generated, "depth": mcRes2.Depth, "wall_s": mcRes2.Wall})
 	}
 	if varErr != nil {
 		return core.Inconcl("KeyStore variants (non-vacuity of the invariants): %v", varErr)
